@@ -61,11 +61,21 @@ def record_call(vq, x, **kw):
         return out
 
     cb.forward = wrapped
+    # every third recorded call hands the input over as a dense PERMUTED VIEW of the same values (time-major / channel-first activations viewed
+    # batch-first, channel-last): the recorded statistics are about values, the memory layout of the caller's tensor must not matter
+    global _CALLS
+    _CALLS += 1
+    if PERMUTE_VIEWS and _CALLS % 3 == 0 and isinstance(x, torch.Tensor) and x.ndim == 3 and not x.requires_grad:
+        x = x.transpose(0, 1).contiguous().transpose(0, 1) if _CALLS % 2 == 0 else x.permute(2, 0, 1).contiguous().permute(1, 2, 0)
     try:
         ret = vq(x, **kw)
     finally:
         del cb.forward
     return ret, recs
+
+
+_CALLS = 0
+PERMUTE_VIEWS = True
 
 
 def grid(rng, shape, den=8, lim=24):
